@@ -176,13 +176,101 @@ fn check(case: &SemCase, _net0: &Net, f: &F) -> Verdict {
     })
 }
 
+/// The same comparison done on whole sets (no explicit model): for networks whose results are BDDs
+/// of 10^4 - 10^6 nodes.  k in {depth, depth+1, depth+3}.
+fn check_large(case: &crate::scale::ScaleCase) -> Verdict {
+    use biodivine_hctl_model_checker::mc_utils::get_extended_symbolic_graph;
+    let lfail = |class: &str, message: String| Verdict::Fail(Failure { class: class.to_string(), message, case: case.to_json() });
+    let Ok(bn) = case.network() else { return Verdict::Discard("unreadable-case") };
+    let Ok(f) = crate::refparse::parse(&case.formula, false) else { return Verdict::Discard("unreadable-case") };
+    if !f.is_closed() || f.has_wild_or_domain() {
+        return Verdict::Discard("outside-C15-domain");
+    }
+    let text = case.formula.as_str();
+    let depth = f.quant_depth() as u16;
+    let plain_graph = match SymbolicAsyncGraph::new(&bn) {
+        Ok(g) => g,
+        Err(_) => return Verdict::Discard("constraints-unsatisfiable"),
+    };
+    let mut sanitised: Vec<(u16, GraphColoredVertices)> = vec![];
+    let mut max_nodes = 0;
+    for k in [depth, depth + 1, depth + 3] {
+        let Ok(g) = get_extended_symbolic_graph(&bn, k) else { return Verdict::Discard("constraints-unsatisfiable") };
+        macro_rules! run {
+            ($what:expr, $e:expr) => {
+                match guard(|| $e) {
+                    Err(p) => return lfail(&format!("C15:panic:{}", panic_site(&p)), format!("k={k}: {} panicked: {p}", $what)),
+                    Ok(Err(e)) => return lfail(&format!("C15:unexpected-error:{}", $what), format!("k={k}: {}: Err({e})", $what)),
+                    Ok(Ok(r)) => r,
+                }
+            };
+        }
+        let dirty = run!("model_check_formula_dirty", model_check_formula_dirty(text, &g));
+        let clean = run!("model_check_formula", model_check_formula(text, &g));
+        max_nodes = max_nodes.max(clean.as_bdd().size());
+        let canonical = g.symbolic_context().as_canonical_context();
+        if clean.as_bdd().num_vars() != canonical.bdd_variable_set().num_vars()
+            || clean.as_bdd().num_vars() != plain_graph.symbolic_context().bdd_variable_set().num_vars()
+        {
+            return lfail(
+                "C15:not-canonical-encoding",
+                format!(
+                    "k={k}: sanitised result ({} BDD nodes) is declared over {} symbolic variables, the canonical encoding has {}",
+                    clean.as_bdd().size(),
+                    clean.as_bdd().num_vars(),
+                    canonical.bdd_variable_set().num_vars()
+                ),
+            );
+        }
+        let Some(moved) = canonical.transfer_from(dirty.as_bdd(), g.symbolic_context()) else {
+            return lfail("C15:raw-result-depends-on-spare-variables", format!("k={k}: the raw result of the closed formula `{text}` cannot be expressed over state and parameter variables"));
+        };
+        if &moved != clean.as_bdd() {
+            return lfail("C15:sanitised-differs-from-raw", format!("k={k}: `{text}`: the sanitised result is not the raw result moved to the canonical encoding ({} vs {} BDD nodes)", clean.as_bdd().size(), moved.size()));
+        }
+        let compat = guard(|| {
+            let u = plain_graph.unit_colored_vertices();
+            (clean.is_subset(u), clean.intersect(u) == clean)
+        });
+        match compat {
+            Err(p) => return lfail(&format!("C15:panic:{}", panic_site(&p)), format!("k={k}: set operations with a graph built from the network panicked: {p}")),
+            Ok((sub, same)) if !sub || !same => {
+                return lfail("C15:incompatible-with-plain-graph", format!("k={k}: sanitised result is not a well-formed subset of the unit set of SymbolicAsyncGraph::new(network)"))
+            }
+            _ => {}
+        }
+        sanitised.push((k, clean));
+    }
+    for w in sanitised.windows(2) {
+        if w[0].1 != w[1].1 {
+            return lfail("C15:depends-on-spare-variable-sets", format!("`{text}`: sanitised results with k={} and k={} differ", w[0].0, w[1].0));
+        }
+    }
+    let unit = plain_graph.mk_unit_colored_vertices();
+    let nontrivial = !sanitised[0].1.is_empty() && sanitised[0].1 != unit;
+    let size_class = match max_nodes {
+        0..=999 => "<1e3",
+        1000..=9999 => "1e3-1e4",
+        10_000..=65_536 => "1e4-65536",
+        _ => ">65536",
+    };
+    let mut classes = vec!["large-results".to_string(), format!("large-results:sanitised-bdd-nodes={size_class}")];
+    classes.extend(formula_classes(&f));
+    Verdict::Pass(CaseReport {
+        nontrivial,
+        key: case.key(),
+        classes,
+        sample: serde_json::json!({"network_lines": case.aeon.as_ref().map(|a| a.lines().count()), "model": case.model, "formula": text, "sanitised_bdd_nodes": max_nodes}),
+    })
+}
+
 impl Property for C15 {
     type Raw = (RawSem, bool, Option<u64>);
     fn id(&self) -> &'static str {
         "C15"
     }
     fn rule(&self) -> String {
-        "random network (in 40 % of the cases the graph is additionally restricted by the caller to a random non-empty subset of its valid colours, as a user would do after an earlier analysis) x closed plain or extended formula x k in {depth, depth+1, depth+3}: the sanitised result lives in the canonical symbolic context (same variable names/order as SymbolicAsyncGraph::new(network)), supports set operations with that graph, equals the raw result point-wise (64 colours, 3 settings of extra variables), and is BDD-equal across all k. Non-trivial: nesting depth >= 1 and the result is neither empty nor full for some sampled colour.".into()
+        "random network (in 40 % of the cases the graph is additionally restricted by the caller to a random non-empty subset of its valid colours, as a user would do after an earlier analysis) x closed plain or extended formula x k in {depth, depth+1, depth+3}: the sanitised result lives in the canonical symbolic context (same variable names/order as SymbolicAsyncGraph::new(network)), supports set operations with that graph, equals the raw result point-wise (64 colours, 3 settings of extra variables), and is BDD-equal across all k. Deterministic stage (large results): unknown functions of arity 6-8, generated 7-8-variable networks in which every update function is unknown (56-64 parameter bits) and five parametrised bundled models x fixed and generated formulae: the sanitised result is over the canonical variable set, equals the raw result moved there by SymbolicContext::transfer_from (whole-set), supports set operations with SymbolicAsyncGraph::new(network), and is BDD-equal for k in {depth, depth+1, depth+3}; result sizes are recorded (class large-results:sanitised-bdd-nodes). Non-trivial: nesting depth >= 1 and the result is neither empty nor full for some sampled colour.".into()
     }
     fn assumptions(&self) -> Vec<String> {
         vec!["same trusted base as C01".into()]
@@ -211,6 +299,106 @@ impl Property for C15 {
         }
     }
     fn replay(&self, case: &Value) -> Verdict {
+        if case.get("scale").is_some() {
+            return match serde_json::from_value::<crate::scale::ScaleCase>(case.clone()) {
+                Ok(c) => check_large(&c),
+                Err(_) => Verdict::Discard("unreadable-case"),
+            };
+        }
         replay_with(case, |case, net, fs| check(case, net, &fs[0]))
+    }
+    fn extra_stages(&self, tier: Tier, seed: u64, stats: &mut Stats) -> Option<Failure> {
+        // large results: unknown functions of arity 6-8, heavily parametrised generated networks,
+        // parametrised bundled models
+        use crate::scale::*;
+        let mut cases: Vec<ScaleCase> = vec![];
+        let mut push = |aeon: Option<String>, model: Option<String>, f: &F| {
+            cases.push(ScaleCase { scale: true, aeon, model, k: f.quant_depth() as u16, formula: f.canon(), fast: true, context: Default::default() })
+        };
+        let fixed = ["(~t)", "(EX t)", "(AX (t & r1))", "(EX (r1 & (EX t)))", "(!{x}: (EX {x}))", "(3{x}: (@{x}: (~t)))", "(EF (~t))", "(!{x}: (AX ((~{x}) | t)))"];
+        for k in tier.pick(vec![6usize, 7, 8], vec![5, 6, 7, 8]) {
+            let aeon = super::c03::wide_function_aeon(k, k % 3);
+            for t in fixed {
+                push(Some(aeon.clone()), None, &crate::refparse::parse(t, false).expect("fixed formula"));
+            }
+        }
+        let nets = crate::bundled::sample_stream(&(raw_mid(), prop::collection::vec(crate::gen::raw_f_weighted(3, 8, 1), 6)), mix(seed, 0xc15), tier.pick(6, 40));
+        let empty_labels = std::collections::HashMap::new();
+        for (net, raws) in &nets {
+            let mut net = net.clone();
+            net.heavy = true;
+            net.n = net.n % 2; // 7 or 8 variables, every one with an unknown function of 3 regulators
+            net.pad = 0;
+            let aeon = resolve_mid(&net);
+            let Ok(bn) = biodivine_lib_param_bn::BooleanNetwork::try_from(aeon.as_str()) else { continue };
+            // pre-flight: the tool computes the steady states in every call (3 graphs x 2 entry points per
+            // case) and cannot be interrupted; networks where that set alone needs > 0.3 s are left out
+            let Ok(g0) = SymbolicAsyncGraph::new(&bn) else { continue };
+            let probe = crate::refsym::RefSym::new(&bn, &g0, &empty_labels, true, None);
+            if probe.sinks_within(std::time::Duration::from_millis(300)).is_none() {
+                continue;
+            }
+            // one-step formulae only: reachability on these networks takes minutes
+            let _ = raws;
+            for t in ["(EX m0)", "(AX (m1 | m2))", "(EX (m0 & (EX m1)))", "(!{x}: (EX {x}))", "(3{x}: (@{x}: (AX m2)))", "(~(AX (m3 ^ m4)))"] {
+                push(Some(aeon.clone()), None, &crate::refparse::parse(t, false).expect("fixed formula"));
+            }
+        }
+        for model in [
+            "benchmark_models/inference-benchmarks/110_9v/model_parametrized.aeon",
+            "benchmark_models/inference-benchmarks/CNS_development/model.aeon",
+            "benchmark_models/large-colored-models/set1-tacas/tacas2.aeon",
+            "benchmark_models/large-colored-models/set1-tacas/tacas3.aeon",
+            "benchmark_models/inference-benchmarks/115_35v/model_parametrized.aeon",
+        ] {
+            let Ok(bn) = biodivine_lib_param_bn::BooleanNetwork::try_from_file(format!("{}/{}", crate::bundled::repo_dir(), model).as_str()) else {
+                harness_error(&format!("bundled model {model} not loadable"));
+            };
+            let raws = crate::bundled::sample_stream(&crate::gen::raw_f_weighted(3, 8, 1), mix(seed, 0xc15b), tier.pick(4, 30));
+            for raw in &raws {
+                push(None, Some(model.to_string()), &scale_formula(raw, &bn, FCfg::PLAIN, 0, true));
+            }
+        }
+        let failure: std::sync::Mutex<Option<Failure>> = std::sync::Mutex::new(None);
+        let reports: std::sync::Mutex<Vec<CaseReport>> = std::sync::Mutex::new(vec![]);
+        let next = std::sync::atomic::AtomicUsize::new(0);
+        std::thread::scope(|scope| {
+            for _ in 0..16 {
+                scope.spawn(|| loop {
+                    let i = next.fetch_add(1, std::sync::atomic::Ordering::SeqCst);
+                    if i >= cases.len() || failure.lock().unwrap().is_some() {
+                        return;
+                    }
+                    let t_case = std::time::Instant::now();
+                    if std::env::var("VERIF_TRACE_SLOW").is_ok() {
+                        eprintln!("large case {i} start: {:?} lines {:?} `{}`", cases[i].model, cases[i].aeon.as_ref().map(|a| a.lines().count()), cases[i].formula);
+                    }
+                    let owned = cases[i].clone();
+                    let verdict = match with_time_limit(std::time::Duration::from_secs(90), move || guard(|| check_large(&owned))) {
+                        Some(v) => v,
+                        None => Ok(Verdict::Discard("call-exceeded-its-time-limit")),
+                    };
+                    if std::env::var("VERIF_TRACE_SLOW").is_ok() {
+                        eprintln!("large case {i} done in {:?}", t_case.elapsed());
+                    }
+                    match verdict {
+                        Ok(Verdict::Fail(fl)) => {
+                            let fl = shrink_scale_with(fl, &check_large);
+                            failure.lock().unwrap().get_or_insert(fl);
+                            return;
+                        }
+                        Ok(Verdict::Pass(rep)) => reports.lock().unwrap().push(rep),
+                        Ok(Verdict::Discard(_)) => {}
+                        Err(p) => harness_error(&format!("panic in the harness in the large-results stage: {p}")),
+                    }
+                });
+            }
+        });
+        let reports = reports.into_inner().unwrap();
+        stats.stages.insert("large-results".into(), serde_json::json!({"cases_built": cases.len(), "cases": reports.len(), "nontrivial": reports.iter().filter(|r| r.nontrivial).count()}));
+        for r in reports {
+            stats.add(r);
+        }
+        failure.into_inner().unwrap()
     }
 }
